@@ -1,4 +1,5 @@
 import GmQuic.Lemmas.CidRouter
+import GmQuic.Lemmas.CidRemote
 /-!
 C14 — connection IDs are issued, used, retired and routed consistently.
 Only the property theorems; models in `GmQuic/Model/{Cid,Router}.lean`, lemmas in `GmQuic/Lemmas/Cid*.lean`.
@@ -126,5 +127,111 @@ theorem retire_unissued_kind : Local.unissuedKind true = Local.rfcUnissuedKind :
 theorem set_limit_cost (l : Local) (next n : Nat) (l' : Local) (fs : List NewCid)
     (h : l.setLimit next n = .ok l' fs) : fs.length = n - l.largest :=
   (Local.setLimit_ok h).2.2.2.2.2.2.2.2.2
+
+
+/-! ## ids issued by the peer (`RRun`: any history of NEW_CONNECTION_ID frames — reordered, duplicated, with any
+sequence / retire-prior-to values — interleaved with paths applying for, borrowing, releasing and retiring ids;
+`fixed = false` is the pinned tree, `fixed = true` the tree with `fix-C14-remote-limit.diff`) -/
+
+/-- each path holds one id at a time: unless a borrowed id is still in use (`BorrowedCid` alive) a cell holds at most
+one id, a retired cell holds none — for every history, on both trees -/
+theorem cell_one_id_at_a_time (fixed : Bool) (limit : Nat) (ops : List ROp) :
+    ∀ c ∈ (RRun.run fixed limit ops).s.cells, (c.inUse = false → c.alloc.length ≤ 1) ∧ (c.retired = true → c.alloc = []) :=
+  (RRun.runInv_run fixed limit ops).inv.ok
+
+/-- … and the id a path is given is always the newest one assigned to it; a retired path gets none -/
+theorem cell_borrows_newest (c : Cell) (x : Cid) (h : c.borrow.2 = .cid x) :
+    c.retired = false ∧ ∃ q rest, c.alloc = (q, x) :: rest := by
+  unfold Cell.borrow at h
+  split at h
+  · cases h
+  · rename_i hr
+    split at h
+    · cases h
+    · rename_i q cid rest heq
+      simp only [Cell.BorrowRes.cid.injEq] at h
+      subst h
+      exact ⟨by simpa using hr, q, rest, heq⟩
+
+/-- structural facts behind the retire-prior-to logic, for every history: the cells handed out are exactly the ids
+`ready_cells.offset .. cursor`, and both tables always share their offset (= the largest retire-prior-to honoured) -/
+theorem remote_tables_aligned (fixed : Bool) (limit : Nat) (ops : List ROp) :
+    let s := (RRun.run fixed limit ops).s
+    s.roff + s.ready.length = s.cursor ∧ s.coff = s.roff :=
+  ⟨(RRun.runInv_run fixed limit ops).inv.i1, (RRun.runInv_run fixed limit ops).inv.i2⟩
+
+/-- the statement: every step that accepts a NEW_CONNECTION_ID frame ends with at most `active_connection_id_limit`
+active peer ids -/
+def RemoteLimitEnforced (fixed : Bool) : Prop :=
+  ∀ (limit : Nat) (ops : List ROp) (o : ROp), 2 ≤ limit →
+    ((RRun.run fixed limit ops).step fixed o).accepted = (RRun.run fixed limit ops).accepted + 1 →
+    ((RRun.run fixed limit ops).step fixed o).s.activeCount ≤ limit
+
+/-- pinned tree: false — limit 2, initial id 0, then ids 1 and 2 with retire-prior-to 0: all three active -/
+theorem remote_limit_enforced_fails : ¬ RemoteLimitEnforced false := by
+  intro h
+  have := h 2 [.apply, .initial (.ext 0) 0, .newcid 1 0 (.ext 1)] (.newcid 2 0 (.ext 2)) (by decide) (by decide)
+  revert this
+  decide
+
+/-- pinned tree, what does hold: never more than `limit + 1` (in fact the whole table of peer ids never has more
+than `limit + 1` cells once a frame has been processed) -/
+theorem remote_limit_enforced_partial (fixed : Bool) (limit : Nat) (ops : List ROp) :
+    (RRun.run fixed limit ops).s.activeCount ≤ limit + 1 ∧ (RRun.run fixed limit ops).s.cdq.length ≤ limit + 1 := by
+  have h := RRun.runInv_run fixed limit ops
+  have := Remote.activeCount_le_len (RRun.run fixed limit ops).s
+  have h1 := h.len
+  rw [h.lim] at h1
+  exact ⟨by omega, h1⟩
+
+/-- with `fix-C14-remote-limit.diff`: holds for every history -/
+theorem remote_limit_enforced : RemoteLimitEnforced true := by
+  intro limit ops o _ hacc
+  have hinv := RRun.runInv_run true limit ops
+  generalize RRun.run true limit ops = r at hacc hinv
+  unfold RRun.step at hacc ⊢
+  split at hacc
+  · omega
+  rename_i hlive
+  simp only [hlive, if_false]
+  cases o with
+  | newcid seq rpt cid =>
+    simp only at hacc ⊢
+    have hs := Remote.recvNewCid_spec (fixed := true) (seq := seq) (rpt := rpt) (cid := cid) hinv.inv hinv.len
+    cases hres : r.s.recvNewCid true seq rpt cid with
+    | accepted s' =>
+      simp only [hres]
+      have := hs.1 s' hres
+      have h2 := this.2.2.2 rfl
+      rw [this.2.2.1, hinv.lim] at h2
+      exact h2
+    | errLimit s' => simp only [hres] at hacc; omega
+    | discarded => simp only [hres] at hacc; omega
+    | panic site => simp only [hres] at hacc; omega
+  | apply => simp only at hacc; omega
+  | initial cid c =>
+    simp only at hacc
+    cases hres : r.s.applyInitial cid c <;> simp only [hres] at hacc <;> omega
+  | borrow c => simp only at hacc; omega
+  | release c =>
+    simp only at hacc
+    cases hres : r.s.release c <;> simp only [hres] at hacc <;> omega
+  | retireCell c => simp only at hacc; omega
+
+example : ((RRun.run true 2 [.apply, .initial (.ext 0) 0, .newcid 1 0 (.ext 1)]).step true (.newcid 2 1 (.ext 2))).accepted = 2 := by
+  decide
+
+/-- cells by which one NEW_CONNECTION_ID frame grows the table: `seq - offset - len + 1`, bounded only by the
+sequence number the peer chooses (with `retire_prior_to = seq - limit` the limit test passes) — DESIGN §7 item 8, C04 -/
+theorem new_cid_table_growth (s : Remote) (seq : Nat) (h : s.coff + s.cdq.length ≤ seq) :
+    s.insertCost seq = seq - s.coff - s.cdq.length + 1 := by
+  unfold Remote.insertCost Remote.insertCid
+  have : ¬ (seq - s.coff < s.cdq.length) := by omega
+  simp [this]
+
+-- OPEN: retire_prior_to_switches_and_retires_once (∀ histories: for every sequence number q,
+--   frames.count q + (number of cells holding q) = if q < cursor then 1 else 0) is not proved yet; it is
+--   checked on every run by the exact correspondence of the RETIRE_CONNECTION_ID frame stream and by the
+--   monitors `retire_frame_duplicated`, `retire_of_unissued_seq`, `retired_id_used`, `abandoned_id_used`.
 
 end GmQuic.Cid
